@@ -63,7 +63,14 @@ let observe c step ~threads_exact =
       let want = int_of_n l.l_handler_threads in
       let n = ref (threads_now ()) and tries = ref 0 in
       while !n > want && !tries < 2000 do Unix.sleepf 0.001; incr tries; n := threads_now () done; !n end) in
-  let o = { step; fds = fd_count () - c.base_fds; maps = map_count c.dir; tmp = count_dir c.spill;
+  (* a worker thread that is running may hold a descriptor for a moment that is not the library's (glibc reads
+     /sys/devices/system/cpu/online when a new thread first allocates): when more descriptors are open than the ledger
+     expects, look again for up to 300 ms - a leak stays, a transient descriptor does not *)
+  let fds_now () = fd_count () - c.base_fds in
+  let fcount = (let want = int_of_n l.l_fds in
+                let n = ref (fds_now ()) and tries = ref 0 in
+                while !n > want && !tries < 300 do Unix.sleepf 0.001; incr tries; n := fds_now () done; !n) in
+  let o = { step; fds = fcount; maps = map_count c.dir; tmp = count_dir c.spill;
             threads = tcount;
             efds = int_of_n l.l_fds; emaps = int_of_n l.l_maps;
             ethreads = (if threads_exact then Some (int_of_n l.l_handler_threads) else None);
